@@ -128,11 +128,14 @@ class SvdRec:
 
     def __enter__(self):
         self.calls = []
+        self.herm = False                 # the model's oracle is the general SVD: hermitian=True is a deviation
         self.orig = np.linalg.svd
 
         def wrapped(A, *a, **k):
             out = self.orig(A, *a, **k)
             self.calls.append((np.array(A, float), [np.array(x, float) for x in out]))
+            if k.get('hermitian', False) or (len(a) > 2 and a[2]):
+                self.herm = True
             return out
         np.linalg.svd = wrapped
         return self
@@ -235,6 +238,54 @@ def _gen_shape(rng, dmax=5, nmax=4, total=300):
             return ns
 
 
+SQUARE_SHAPES = [(2, 2), (3, 3), (4, 4), (5, 5), (6, 6), (4, 2, 2), (6, 2, 3), (6, 3, 2), (8, 2, 4), (9, 3, 3),
+                 (1, 3, 3), (1, 4, 4), (1, 6, 6), (4, 4, 1), (1, 2, 2, 4), (2, 2, 4), (2, 3, 6)]
+STRUCT = ['sym', 'skew', 'orth', 'diag', 'lowrank', 'sympsd']
+
+
+def _square_dim(shape):
+    """size n of the square matrix the structured family is laid into (first non-trivial unfolding)"""
+    tot = int(np.prod(shape))
+    n = int(round(math.sqrt(tot)))
+    return n if n * n == tot else None
+
+
+def _structured(g, rng, shape, kind, p):
+    """dense array of the given shape whose n x n unfolding is base + p * |base| * noise, base of the given kind"""
+    n = _square_dim(shape)
+    S = g.normal(size=(n, n))
+    if kind == 'sym':
+        B = S + S.T
+    elif kind == 'sympsd':
+        B = S @ S.T
+    elif kind == 'skew':
+        B = S - S.T if n > 1 else S
+    elif kind == 'orth':
+        B = np.linalg.qr(S)[0]
+    elif kind == 'diag':
+        B = np.diag(g.normal(size=n))
+    else:
+        k = rng.randint(1, max(1, n - 1))
+        B = g.normal(size=(n, k)) @ g.normal(size=(k, n))
+        if rng.random() < 0.5:
+            B = B + B.T
+    N = g.normal(size=(n, n))
+    nb = max(float(np.linalg.norm(B)), 1e-300)
+    M = B + p * nb / float(np.linalg.norm(N)) * N
+    return M.reshape(shape), p * nb
+
+
+def _decaying(g, rng, shape, lo):
+    """array whose first unfolding has singular values decaying geometrically from 1 to lo"""
+    m = shape[0]
+    n = int(np.prod(shape[1:]))
+    k = min(m, n)
+    U = np.linalg.qr(g.normal(size=(m, k)))[0]
+    V = np.linalg.qr(g.normal(size=(n, k)))[0]
+    sv = lo ** (np.arange(k) / max(1, k - 1))
+    return ((U * sv) @ V.T).reshape(shape)
+
+
 FAMS = ['full', 'full', 'full', 'lowrank', 'lowrank', 'zero', 'rank1', 'const', 'int']
 
 
@@ -316,7 +367,7 @@ def _svd_item(tn, A, e, r, tag):
     with SvdRec() as rec:
         Y = tn.svd(A, e, r)
     coq = f'showY (svd OF {_orc(rec.calls)} {C.natlist(ns)} {_flist(A)} {_fe(e)} {C.zlit(int(r))})'
-    return dict(coq=coq, impl=Y, calls=rec.calls, shapes=[G.shape for G in Y],
+    return dict(coq=coq, impl=Y, calls=rec.calls, herm=rec.herm, shapes=[G.shape for G in Y],
                 input=dict(kind='svd', tag=tag, A=_pack(A), e=float(e).hex(), r=float(r)))
 
 
@@ -327,10 +378,10 @@ def correspondence(R, ctx):
     mult = 8 if ctx['thorough'] else 1
     bad_all, contract_bad, n_calls = [], [], 0
 
-    def note_contract(calls, inp):
+    def note_contract(calls, inp, herm=False):
         nonlocal n_calls
         n_calls += len(calls)
-        msg = _contract(calls)
+        msg = 'np.linalg.svd called with hermitian=True (the model calls the general SVD)' if herm else _contract(calls)
         if msg:
             contract_bad.append(dict(stream='svd_contract', input=inp, message=msg))
 
@@ -347,12 +398,38 @@ def correspondence(R, ctx):
         e = _pick_e(rng, base)
         r = _cap(rng)
         it = _svd_item(tn, A, e, r, fam)
-        note_contract(it['calls'], it['input'])
+        note_contract(it['calls'], it['input'], it['herm'])
         items.append(it)
         pool.append((A, it['calls']))
         for key, val in (('family', fam), ('d', len(ns)), ('scale', sc), ('cap', r), ('e_rel', erel)):
             dist[key][str(val)] = dist[key].get(str(val), 0) + 1
     bad_all += _float_stream(R, 'f_svd', items, _cmp_cores, dist)
+
+    # ---- 1b. f_svd_structured: square unfoldings that are nearly symmetric / skew / orthogonal / diagonal / low rank
+    #          (perturbation 1e-3..1e-12 relative), and spectra decaying down to 1e-7..1e-11 |A|, every scale
+    items, dist = [], dict(kind={}, shape={}, p={}, scale={})
+    for i in range(70 * mult):
+        sc = _scale(rng)
+        if i % 4 == 3:
+            shape = rng.choice([(4, 4), (6, 6), (5, 7), (4, 2, 3), (6, 2, 3), (3, 3, 3), (2, 3, 2, 2)])
+            lo = 10.0 ** -rng.randint(7, 11)
+            A = _decaying(g, rng, shape, lo) * sc
+            kind, p = 'decaying', lo
+            base = float(np.linalg.norm(A)) * 10.0 ** -rng.randint(6, 12)
+        else:
+            shape = SQUARE_SHAPES[rng.randrange(len(SQUARE_SHAPES))]
+            kind = STRUCT[i % len(STRUCT)]
+            p = 10.0 ** -rng.randint(3, 12)
+            A, asym = _structured(g, rng, shape, kind, p)
+            A = A * sc
+            base = rng.choice([asym * sc * 0.01, asym * sc * 1e-3, 1e-10, 1e-8 * float(np.linalg.norm(A))])
+        e = _pick_e(rng, max(base, 1e-300))
+        it = _svd_item(tn, A, e, RDEF, f'{kind}-p{p:.0e}')
+        note_contract(it['calls'], it['input'], it['herm'])
+        items.append(it)
+        for key, val in (('kind', kind), ('shape', tuple(shape)), ('p', f'{p:.0e}'), ('scale', sc)):
+            dist[key][str(val)] = dist[key].get(str(val), 0) + 1
+    bad_all += _float_stream(R, 'f_svd_structured', items, _cmp_cores, dist)
 
     # ---- 2. f_svd_threshold: e at / around every rank change of the first unfolding
     items, dist = [], dict(exact=0, above=0, below=0)
@@ -761,6 +838,27 @@ def search(R, ctx, deep, hints):
         nrm = float(np.linalg.norm(A))
         e = nrm * rng.choice([1e-8, 1e-3, 0.01, 0.05, 0.1, 0.2, 0.3])
         ev(pk('svd', A, e, rng.choice([RDEF, RDEF, RDEF, 2, 3])))
+    # structured square unfoldings: nearly symmetric / skew / orthogonal / diagonal / low rank, e below the perturbation
+    for i in range(500 if deep else 90):
+        shape = SQUARE_SHAPES[rng.randrange(len(SQUARE_SHAPES))]
+        kind = STRUCT[i % len(STRUCT)]
+        p = 10.0 ** -rng.randint(3, 12)
+        sc = 10.0 ** rng.choice([-6, -6, -3, 0, 0, 3, 6])
+        A, asym = _structured(g, rng, shape, kind, p)
+        A = A * sc
+        e = rng.choice([asym * sc * 0.01, asym * sc * 1e-3, asym * sc * 0.3, 1e-8 * float(np.linalg.norm(A))])
+        ev(pk('svd', A, max(e, 1e-300), RDEF))
+    # decaying spectra: singular values between e and 1e-7 |A|, e = 1e-12..1e-6 relative
+    for i in range(300 if deep else 60):
+        shape = rng.choice([(4, 4), (6, 6), (5, 7), (8, 3), (4, 2, 3), (6, 2, 3), (3, 3, 3), (2, 3, 2, 2), (5, 2, 2)])
+        lo = 10.0 ** -rng.randint(7, 11)
+        sc = 10.0 ** rng.choice([-6, -3, 0, 0, 3, 6])
+        A = _decaying(g, rng, shape, lo) * sc
+        e = float(np.linalg.norm(A)) * 10.0 ** -rng.randint(6, 12)
+        ev(pk('svd', A, e, RDEF))
+        if len(shape) == 2 and i % 2 == 0:
+            ev(pk('skeleton', A, e, RDEF, rel=False))
+            ev(pk('skeleton', A, e / max(float(np.linalg.norm(A, 2)), 1e-300), RDEF, rel=True))
     # exact low TT-rank
     for i in range(150 if deep else 25):
         ns = [rng.randint(2, 4) for _ in range(rng.randint(2, 5))]
